@@ -148,6 +148,20 @@ check("C05", "exploration",
       "runtime monitoring: independent-parser round-trip oracle over boundary-dense values on every JSON-producing path",
       "DESIGN.md §3 C05")
 
+check("C07", "fault_enumeration",
+      "Enumerates import graphs over 3 files (every edge none/strict/lazy) laid out over the importer "
+      "directory and two library directories with shadowing copies, import kinds and six path spellings "
+      "(incl. symlink chains), runs each through a recording / fault-injecting ImportResolver wrapper "
+      "around the real FileImportResolver and checks resolution order, value, at-most-once load and "
+      "evaluation per canonical file, byte-exact importstr/importbin, cycle handling, and - for every "
+      "resolve and load event of the fault-free log - the run with exactly that event failed, followed "
+      "on the same State by an unrelated import, a retry and a fresh importer over the same files; "
+      "plus special targets and the CLI's -J / JSONNET_PATH priority over all presence patterns.",
+      "Faults are injected at the resolver boundary (ImportIo); unreadable files cannot be produced by "
+      "chmod as root. History independence is judged on results, not on the resolver log.",
+      "runtime monitoring: recording + fault-injecting resolver wrapper, per-event fault enumeration, history-independence oracle",
+      "DESIGN.md §3 C07")
+
 NOT_APPLICABLE = []
 
 
